@@ -125,6 +125,20 @@ def validate(spec: ModelSpec, c: tv.Compiled, tally: decide.Tally, vectorized: b
     if any(v['kind'] == 'state-layout' for v in res['violations']):
         return res
 
+    # concrete shadow run: the real function on the very arguments it was returned with ------------
+    try:
+        shadow = c.func(*[np.array(a, copy=True) if isinstance(a, np.ndarray) else a for a in c.args])
+        shadow = np.asarray(_to_numpy(shadow), dtype=float).reshape(-1)
+        if shadow.shape[0] != ny:
+            res['violations'].append(dict(kind='shape', what=f"vector field returns {shadow.shape[0]} entries for "
+                                          f"{ny} states"))
+            return res
+    except Exception as e:   # noqa
+        res['violations'].append(dict(kind='emitted-function-raises',
+                                      what=f"the emitted function raises on the arguments returned with it: "
+                                           f"{type(e).__name__}: {e}"))
+        return res
+
     # (b) symbolic run -------------------------------------------------------------------
     y_sym = symx.symarray('y', ny)
     y_names = [f"y_{j}" for j in range(ny)]
